@@ -1,27 +1,27 @@
 SPECIFICATION Spec
 CONSTANTS
   MaxBlocks = 1
-  EqD <- L_D3
-  EqJ <- L_EqJ
+  EqD <- S_D
+  EqJ <- S_EqJ
   FrT <- S_FrT
-  FrD <- L_D3
-  FrL <- L_FrL
-  FrJ <- L_FrJ
-  UnT <- L_UnT
-  UnD <- L_D3
-  UnJ <- L_UnJ
-  ElDim <- L_Dims
-  ElMu <- L_Mu
-  ElK <- L_K1
-  ElD <- L_D1
-  ElDir <- L_Dir1
-  ElA <- Q_ElA
-  ElT <- Q_ElT
-  CvA <- Q_CvA
-  CvT <- Q_CvT
+  FrD <- S_D
+  FrL <- S_FrL
+  FrJ <- S_FrJ
+  UnT <- S_UnT
+  UnD <- S_D
+  UnJ <- S_UnJ
+  ElDim <- S_Dims
+  ElMu <- S_Mu
+  ElK <- S_K
+  ElD <- S_D
+  ElDir <- S_Dir
+  ElA <- S_ElA
+  ElT <- S_ElT
+  CvA <- S_ElA
+  CvT <- S_ElT
   Hs <- L_Hs
   Deep = TRUE
-  Variant = "doc"
+  Variant = "nohalf"
 INVARIANT TypeOK
 INVARIANT GradientOK
 INVARIANT C1OK
